@@ -252,7 +252,9 @@ def runLoop : Nat → Nat → St → Bytes → EndState → Script → Trace
     | .error (.stop .pending) => s.finish .waiting
     | .error (.stop _) => s.finish .closed
     | .ok (h, rest) =>
-      match framingOf h.headers with
+      -- `new_request`: the `upgrade` option is honoured only for the versions the server speaks
+      -- (`framingFor`), so the body of a request refused below with 505 is always framed and skipped
+      match framingFor h.version h.headers with
       | .error .expectationFailed => (s.emit 417 (some (printError 417 h.version true)) false).finish .closed
       | .error _ => (s.emit 400 (some (printError 400 h.version false)) false).finish .closed
       | .ok fr =>
